@@ -14,8 +14,17 @@ lazy_community.retrieve_cache:
 Signatures: divergences that need a cache *object* that is registered a second time (spec action ReAdd) are prefixed
 "readd:"; on the pinned tree they all stem from TaskManager.register_task.done_cb forgetting whatever task carries the
 name (proposed_fixes/C10-1.diff, spec constant ReapOwnOnly = FALSE reproduces it in TLC).
-Configurations: q2/n2 (2 caches) and r3 (3 caches) are dumped and replayed edge by edge; q3/n3/n4 are model checked,
-n3/n4 additionally sampled with TLC -simulate; ctl_* are the negative controls.
+The response path (lazy_community.retrieve_cache) is a spec action of its own: Respond(i, k, a) = the wrapper claims the
+cache (pop, nC[c] + 1) and then the handler body runs, which may do nothing, fail (raise), pop an identity - its own
+included, directly or as a re-entrant response - or add the next cache (also with the identity just released).
+Coroutine handlers: RespondCo(i) (matched = claimed now) and HandlerBody(k, a) (the body, an arbitrary number of steps
+later).  The driver executes them with real retrieve_cache-decorated handlers whose bodies are scripted by the walk;
+nC (how often a cache object was handed to a claimant in this registration) is part of the compared state
+(invariants ExactlyOnce: nC + nT <= 1, ClaimedOnce).  Spec constant ClaimFirst = FALSE is the control (peek, pop after
+the handler returned), classes()["PeekOverlay"] the corresponding replay control.
+Configurations: h2 (2 caches, every handler script, coroutine handlers), q2/n2 (2 caches) and h3/r3 (3 caches) are
+dumped and replayed edge by edge; q3/n3/n4 are model checked, s3/n4 sampled with TLC -simulate; ctl_* are the negative
+controls.
 """
 from __future__ import annotations
 
@@ -98,6 +107,7 @@ def classes():
 
             @deco(Base)
             async def on_response_co(self, peer, payload, cache):
+                self.world.co_got = cache
                 return self.world.handler_body(cache)
 
         return Overlay
@@ -174,6 +184,7 @@ class World:
         self.hscript = None                # what the body of the next handler invocation does
         self.hnested = None                # (cid, op, result) of that body
         self.co = None                     # (coroutine, cid): matched coroutine handler whose body has not run
+        self.co_got = None                 # cache that body received
         self.added = set()
         self.script = {}
         self.nested = None                 # (cid, op, result) of the last on_timeout callback
@@ -322,24 +333,28 @@ class World:
         """... dispatched to the coroutine handler: the wrapper runs now, the body later (run_body)."""
         if self.co is not None:
             raise MachineryError("a coroutine handler is already pending")
+        c = self.rc.get("p", i)            # the request this response answers (the table was compared after the last step)
         try:
             co = self._call(self.overlay.on_response_co, None, SimpleNamespace(identifier=i))
         except KeyError as e:
             raise Divergence("wrapper-keyerror", "the retrieve_cache wrapper raised %r (response %d)" % (e, i)) from e
         if co is None:
             return 0
-        c = co.cr_frame.f_locals.get("cache")
+        if not hasattr(co, "send"):
+            raise MachineryError("the wrapper of a coroutine handler returned %r" % (co,))
         if c is None:
             co.close()
-            raise Divergence("no-cache", "the coroutine handler was called without a cache")
+            raise Divergence("phantom-match", "response %d was dispatched to the coroutine handler although no request "
+                                              "with this identifier is registered" % i)
         self.co = (co, c.cid)
-        self.nC[c.cid] += 1                # handed out when it was matched
+        self.nC[c.cid] += 1                # matched = handed out; run_body checks that the body receives this cache
         return c.cid
 
     def run_body(self, op):
         co, cid = self.co
         self.co = None
         self.hscript, self.hnested = op, None
+        self.co_got = None
 
         def go():
             try:
@@ -351,6 +366,10 @@ class World:
             self._call(go)
         finally:
             self.hscript = None
+        got, self.co_got = self.co_got, None
+        if got is None or got.cid != cid:
+            raise Divergence("co-handler-cache", "the body of the coroutine handler matched with cache %d ran with %s"
+                             % (cid, "cache %d" % got.cid if got is not None else "no cache / not at all"))
         return cid
 
     def next_new(self):
@@ -963,6 +982,9 @@ def record_trace(loop, rng, n, readd=True):
                 continue
             for t, h in w.timer.items():
                 if h is th:
+                    if t not in w.owner:
+                        raise Divergence("unknown-task", "a time-out is armed by a task that no add() of this execution "
+                                                         "started: %s" % t.get_name())
                     cid = w.owner[t]
                     if t is not w.tasks[cid][-1]:
                         raise Divergence("stale-timer", "a live timer belongs to an earlier task of cache %d" % cid)
@@ -1202,7 +1224,7 @@ def replay_file(loop, path):
         return
     w = World(loop, rep["ident"], rep["futk"], rep["cls"], max(rep["ident"] + [2]))
     print("replay of %s  ident=%s futk=%s cls=%s" % (path, rep["ident"], rep["futk"], rep["cls"]))
-    dummy = {"table": (0,) * w.ni, "st": ("?",) * w.n}
+    dummy = {"table": (0,) * w.ni, "st": ("new",) * w.n, "hpend": 0}      # results are printed, not judged
     try:
         for lab in rep["actions"]:
             if lab == "<run-out>":
@@ -1224,7 +1246,9 @@ def replay_file(loop, path):
 def run(tier, seed, replay=None):
     setup_repo_path()
     ctx = Ctx(PID, tier, seed, "model_checking")
-    ctx.cov["rule"] = ("TLC explores every interleaving of add / pop (direct and via a retrieve_cache handler) / task start / "
+    ctx.cov["rule"] = ("TLC explores every interleaving of add / pop (direct and via a retrieve_cache handler) / response "
+                       "dispatched to a handler whose body fails or re-enters the cache (pop, re-entrant response, add; "
+                       "plain and coroutine handlers) / task start / "
                        "timer expiry / task wake-up / done callbacks / passthrough / clear / shutdown / external future "
                        "completion / re-registration, incl. pops and adds from inside on_timeout, for <= 4 caches; every "
                        "transition of the dumped graph (and sampled behaviours of the larger configurations) is executed "
@@ -1235,7 +1259,9 @@ def run(tier, seed, replay=None):
                         "specification lets ready handles run in any order, a superset of asyncio's schedules",
                         "single event-loop thread (RequestCache.lock / TaskManager._task_lock are not exercised "
                         "concurrently)",
-                        "time-out callbacks of the caches do not raise and do not block"]
+                        "time-out callbacks of the caches do not raise and do not block",
+                        "whether a failure of a handler body propagates out of the retrieve_cache wrapper is not judged; "
+                        "coroutine handler bodies do not suspend"]
     rng = random.Random(seed)
     loop = StepLoop()
     asyncio.set_event_loop(loop)
@@ -1258,15 +1284,16 @@ def run(tier, seed, replay=None):
         j_peek = mc("ctl_peek", coverage=False, workers=2)
         if quick:
             graphs.insert(0, ("h2", pool.submit(dump_graph, "RequestCache_h2.cfg"), None))
-            sims = [("n3", pool.submit(simulate, "RequestCache_n3.cfg", 1600, 40, seed + 7))]
+            sims = [("s3", pool.submit(simulate, "RequestCache_s3.cfg", 1600, 40, seed + 7))]
             ntr = 40
         else:
             graphs = [("h2", pool.submit(dump_graph, "RequestCache_h2.cfg"), None),
+                      ("h3", pool.submit(dump_graph, "RequestCache_h3.cfg"), None),
                       ("n2", pool.submit(dump_graph, "RequestCache_n2.cfg"), None),
                       ("r3", pool.submit(dump_graph, "RequestCache_r3.cfg"), 1000000)]
-            checks = [("n3", mc("n3", workers=8), ALL_ACTIONS | CO_ACTIONS),
+            checks = [("n3", mc("n3", workers=8), ALL_ACTIONS),
                       ("n4", mc("n4", workers=12, coverage=False, timeout=7200), None)]
-            sims = [("n3", pool.submit(simulate, "RequestCache_n3.cfg", 8000, 45, seed + 7)),
+            sims = [("s3", pool.submit(simulate, "RequestCache_s3.cfg", 8000, 45, seed + 7)),
                     ("n4", pool.submit(simulate, "RequestCache_n4.cfg", 8000, 50, seed + 8))]
             ntr = 400
 
@@ -1298,8 +1325,8 @@ def run(tier, seed, replay=None):
         found = []
         for tag, job, max_ops in graphs:
             dumped = job.result()
-            check_coverage(dumped[0], tag, H2_ACTIONS if tag == "h2" else
-                           (ALL_ACTIONS - {"FutExt"}) if tag in ("q2", "r3") else ALL_ACTIONS | CO_ACTIONS)
+            check_coverage(dumped[0], tag, H2_ACTIONS if tag in ("h2", "h3") else
+                           (ALL_ACTIONS - {"FutExt"}) if tag in ("q2", "r3") else ALL_ACTIONS)
             if not found:
                 found += replay_graph(ctx, loop, dumped, "RequestCache_%s.cfg" % tag, 2, tag, max_ops, rng)
         for tag, job in sims:
